@@ -16,10 +16,11 @@ func init() {
 		NotCovered:  "values restored (that save captures the right value), dynamic nesting of tmp/with/defer across calls",
 		Rules:       []string{"RESTORE-DEFER", "DEFERS-RUN", "REVERSE", "BODY-WINS"},
 		Patterns:    []string{"./pkg/eval"},
-		Run:         runC21,
+		Run:         func(p *core.Program, r *core.Report) { runC21(p, r); runRCDirect(p, r) },
 		MinCounts:   map[string]int{"RESTORE-DEFER": 4, "DEFERS-RUN": 1, "REVERSE": 2, "BODY-WINS": 2},
 		Trusted:     trustedBase,
 		Controls: []core.Control{
+			{Name: "assignment-buffers-its-restores", Rule: "RESTORE-DEFER", File: "pkg/eval/compile_lvalue.go", Old: "\t// Now perform assignment.\n", New: "\tvar buffered []func(*Frame) Exception\n\tif flush := rc; rc != nil {\n\t\trc = func(f func(*Frame) Exception) { buffered = append(buffered, f) }\n\t\tdefer func() {\n\t\t\tif len(buffered) == len(variables) {\n\t\t\t\tfor _, f := range buffered {\n\t\t\t\t\tflush(f)\n\t\t\t\t}\n\t\t\t}\n\t\t}()\n\t}\n\t// Now perform assignment.\n", Fire: true, Want: "unchanged"},
 			{Name: "with-restores-after-body-not-deferred", Rule: "RESTORE-DEFER", File: "pkg/eval/builtin_special.go", Old: "\tdefer func() {\n\t\tfor i := len(restoreFuncs) - 1; i >= 0; i-- {\n\t\t\texc := restoreFuncs[i](fm)\n\t\t\tif exc != nil && opExc == nil {\n\t\t\t\topExc = exc\n\t\t\t}\n\t\t}\n\t}()\n", New: "\trestoreAll := func() {\n\t\tfor i := len(restoreFuncs) - 1; i >= 0; i-- {\n\t\t\texc := restoreFuncs[i](fm)\n\t\t\tif exc != nil && opExc == nil {\n\t\t\t\topExc = exc\n\t\t\t}\n\t\t}\n\t}\n", Edits: [][2]string{{"\tbody := execLambdaOp(fm, op.bodyOp)\n\treturn fm.errorp(op, body.Call(fm.Fork(), NoArgs, NoOpts))\n}\n\n// Finds LHS and RHS", "\tbody := execLambdaOp(fm, op.bodyOp)\n\topExc = fm.errorp(op, body.Call(fm.Fork(), NoArgs, NoOpts))\n\trestoreAll()\n\treturn opExc\n}\n\n// Finds LHS and RHS"}}, Fire: true, Quick: true},
 			{Name: "restore-collected-before-set", Rule: "RESTORE-DEFER", File: "pkg/eval/compile_lvalue.go", Old: "\terr := variable.Set(value)\n\tif err != nil {\n\t\treturn fm.errorp(r, err)\n\t}\n\tif rc != nil {\n\t\trc(restore)\n\t}\n\treturn nil", New: "\tif rc != nil {\n\t\trc(restore)\n\t}\n\terr := variable.Set(value)\n\tif err != nil {\n\t\treturn fm.errorp(r, err)\n\t}\n\treturn nil", Fire: true},
 			{Name: "ascending-restore-loop", Rule: "REVERSE", File: "pkg/eval/builtin_special.go", Old: "\t\tfor i := len(restoreFuncs) - 1; i >= 0; i-- {", New: "\t\tfor i := 0; i < len(restoreFuncs); i++ {", Fire: true, Quick: true},
